@@ -492,6 +492,22 @@ func v6Fix(res *OracleResult, r *Rng, n int, thorough bool, seeds []string, seen
 			}
 			if !bytes.Equal(b1, m1.ToBytes()) {
 				what = "encoding the re-decoded message gives different bytes"
+				return
+			}
+			// "forwarding a received packet never changes its meaning": the INDEPENDENT
+			// reading (ref6.go, which shares no state with the library: a decoder that
+			// carries something over from an earlier datagram of this process shows here)
+			// of the original bytes and of the re-encoded bytes is the same value, up to
+			// the listed normalisations (duplicate requested codes are dropped by the
+			// reference reading itself; embedded DHCPv4 names cut to capacity)
+			if r0 := refDecode6x(b); r0.wellok {
+				r1 := refDecode6x(b1)
+				t0, t1 := cutEmbeddedNames(stripLabelOriginals(r0.term)), cutEmbeddedNames(stripLabelOriginals(r1.term))
+				if !r1.wellok {
+					what, class = "the re-encoding of an accepted, RFC-well-formed message is not well-formed for the reference decoder", "v6-fixpoint-meaning"
+				} else if t0 != t1 {
+					what, class = "meaning changed: RFC reading of the re-encoding differs from the original's: "+firstDiff(t0, t1), "v6-fixpoint-meaning"
+				}
 			}
 		}()
 		if acc {
@@ -515,6 +531,19 @@ func v6Fix(res *OracleResult, r *Rng, n int, thorough bool, seeds []string, seen
 	}
 	run(v6RepadOverflowProbe(), "probe-length-overflow")
 	for i := 0; i < n; i++ {
+		if i%8 == 7 {
+			// a history of two datagrams in one process: a datagram one of whose option
+			// values is damaged (its parser returns through an error path), then its intact
+			// twin - whatever a decoder carries over from a rejected datagram (pooled scratch
+			// state, caches, counters) meets the very same option codes and values again
+			bad, good := genReframedPair6(r.Fork())
+			func() {
+				defer func() { recover() }()
+				dhcpv6.FromBytes(bad)
+			}()
+			run(good, "intact-twin-after-damaged")
+			continue
+		}
 		b, kind := genWire6(r.Fork())
 		run(b, kind)
 	}
